@@ -73,6 +73,9 @@ FRESH_FUNCS = {
     "build", "build_many", "load_designspace", "VariationModel", "normalizeLocation", "piecewiseLinearMap", "addOpenTypeFeatures", "addOpenTypeFeaturesFromString",
     "compile", "sub", "match", "search", "findall", "fullmatch", "escape", "basename", "dirname", "join", "abspath", "exists", "warn",
 }
+# kinds of abstract objects that are never the value None (library results -- kind "ext" -- and anything read
+# from the source -- SRC -- may be None)
+DEFINITE_KINDS = {"cont", "inst", "cls", "func", "bound", "mod", "glob", "attrs", "super", "extcls", "GS"}
 ITER_BUILTINS = {"zip", "enumerate", "map", "filter", "iter", "chain", "zip_strict", "zip_longest", "product", "islice", "partial"}
 
 
@@ -200,6 +203,8 @@ class Analysis:
         self.decided = {}  # `x is None` tests decided by a previous fixpoint (re-validated at the end)
         self.new_decided = {}
         self.deciding = False
+        self.repo_calls = set()  # (ctx key, line, col) of call expressions that resolved to analysed (repository) code
+        self.strong_reads = set()
         self.cuts = set()  # (file, line): call expressions whose result is treated as NOT aliasing the sources (known findings)
         self.cut_hits = set()
         self._load()
@@ -361,15 +366,17 @@ class Analysis:
                     res = lv is None
                     return res if isinstance(node.ops[0], ast.Is) else not res
                 key = (ctx.key, node.lineno, node.col_offset)
-                if key in self.decided:
-                    return self.decided[key]
                 if self.deciding:
+                    # (re-)derive the decision from the fixpoint just computed -- also for tests that were
+                    # decided before: a decision is only kept if the run made under it validates it again
                     pts = self.ev(node.left, ctx)
                     if pts:
-                        if self.NONE not in pts:
+                        if self.NONE not in pts and all(o.kind in DEFINITE_KINDS for o in pts):
                             self.new_decided[key] = isinstance(node.ops[0], ast.IsNot)
                         elif pts == {self.NONE}:
                             self.new_decided[key] = isinstance(node.ops[0], ast.Is)
+                if key in self.decided:
+                    return self.decided[key]
         return ...
 
     def ev(self, node, ctx):
@@ -617,7 +624,91 @@ class Analysis:
                 else:
                     out.add(o)
             return out
+        if isinstance(node.value, ast.Name) and isinstance(getattr(node, "ctx", None), ast.Load):
+            strong = self.strong_field_read(node, ctx)
+            if strong is not None:
+                return strong
         return self.getattr_objs(base, node.attr, node, ctx)
+
+    # ---- flow-sensitive read of `x.f` right after `x.f = <empty container>` ---------------------------------
+    def _parents(self, func):
+        if not hasattr(func, "_parent_map"):
+            pm = {}
+            for n in ast.walk(func.node):
+                for ch in ast.iter_child_nodes(n):
+                    pm[ch] = n
+            func._parent_map = pm
+        return func._parent_map
+
+    @staticmethod
+    def _empty_container(e):
+        if isinstance(e, (ast.List, ast.Set)) and not e.elts:
+            return True
+        if isinstance(e, ast.Dict) and not e.keys:
+            return True
+        return isinstance(e, ast.Call) and isinstance(e.func, ast.Name) and e.func.id in ("set", "list", "dict") and not e.args and not e.keywords
+
+    def strong_field_read(self, node, ctx):
+        """`x.f` evaluated at a point that is dominated by `x.f = set()/[]/{}` in the same function, with nothing
+        in between (and nothing in the loops that enclose the read up to that block) that could rebind `x`,
+        store to any attribute named `f`, or call analysed (repository) code -- library calls cannot assign
+        attributes of ufo2ft instances they are not given. Then the value read IS the container allocated by that
+        statement. Returns None when the rule does not apply (the flow-insensitive field value is used)."""
+        func = ctx.func
+        if isinstance(func.node, ast.Lambda):
+            return None
+        pm = self._parents(func)
+        x, f = node.value.id, node.attr
+        # the statement containing the read, and its chain of enclosing statements
+        cur = node
+        while cur in pm and not isinstance(cur, ast.stmt):
+            cur = pm[cur]
+        if not isinstance(cur, ast.stmt):
+            return None
+        between = []
+        found = None
+        while cur is not func.node and cur in pm:
+            par = pm[cur]
+            block = None
+            for fld in ("body", "orelse", "finalbody"):
+                b = getattr(par, fld, None)
+                if isinstance(b, list) and cur in b:
+                    block = b
+            if block is None:
+                if isinstance(par, (ast.ExceptHandler, ast.With, ast.Try)) or isinstance(par, ast.stmt):
+                    cur = par
+                    continue
+                return None
+            i = block.index(cur)
+            # `cur` itself: if it is a loop (or any compound statement) everything in it may run before the read
+            between.append(cur)
+            for st in reversed(block[:i]):
+                if isinstance(st, ast.Assign) and len(st.targets) == 1 and isinstance(st.targets[0], ast.Attribute) and isinstance(st.targets[0].value, ast.Name) \
+                        and st.targets[0].value.id == x and st.targets[0].attr == f and self._empty_container(st.value):
+                    found = st
+                    break
+                between.append(st)
+            if found is not None:
+                break
+            if isinstance(par, (ast.FunctionDef, ast.AsyncFunctionDef)):
+                return None
+            cur = par
+        if found is None:
+            return None
+        for st in between:
+            for n in ast.walk(st):
+                if isinstance(n, ast.Attribute) and n.attr == f and isinstance(n.ctx, (ast.Store, ast.Del)):
+                    return None
+                if isinstance(n, ast.Name) and n.id == x and isinstance(n.ctx, (ast.Store, ast.Del)):
+                    return None
+                if isinstance(n, (ast.FunctionDef, ast.AsyncFunctionDef, ast.Lambda, ast.Yield, ast.YieldFrom, ast.Await)):
+                    return None
+                if hasattr(n, "lineno") and (ctx.key, n.lineno, n.col_offset) in self.repo_calls:
+                    return None  # a call, property read or operator that runs analysed code
+                if isinstance(n, ast.Call) and isinstance(n.func, ast.Name) and n.func.id in ("setattr", "delattr", "exec", "eval"):
+                    return None
+        self.strong_reads.add((self.site(node)[0], node.lineno, f"{x}.{f}"))
+        return self.ev(found.value, ctx)
 
     def classes_of(self, objs):
         out = set()
@@ -973,6 +1064,8 @@ class Analysis:
             r = self.elements({o})
             for _, s in args[1:]:
                 r |= s
+            if len(args) < 2 and "default" not in kwargs:
+                r = r | {self.NONE}  # d.get(k) is None for a missing key
             return r
         if name == "items":
             return self.rows(node, [set(), self.elements({o})], "items")
@@ -1017,7 +1110,13 @@ class Analysis:
             fn = self.func_of(c.py) if c.py is not None else None
             if fn is not None:
                 return self.call_func(fn, self.argsets(args), {k: v for k, (_, v) in kwargs.items()}, node, ctx, args, kwargs, star_kw)
-            return self.lib_call(getattr(c.py, "__name__", "?"), c.py, node, args, kwargs, star_kw, ctx)
+            py = c.py
+            import functools as _ft
+
+            if isinstance(py, _ft.partial) and not py.args:
+                # partial(f, **only_keywords): same data flow as f (zip_strict = partial(zip, strict=True))
+                py = py.func
+            return self.lib_call(getattr(py, "__name__", "?"), py, node, args, kwargs, star_kw, ctx)
         if c.kind == "bound":
             fn = self.func_of(c.py)
             selfset = {c.self_}
@@ -1098,7 +1197,15 @@ class Analysis:
             for kk, (_, s) in kwargs.items():
                 self.add(self.F[(o, kk)], s)
             for n in names:
-                self.add(self.F[(o, n)], star_kw)
+                # **mapping: the VALUES stored in the mapping (under this key, or under an unknown key) may bind
+                # the field -- never the mapping object itself
+                for d in star_kw:
+                    if d.kind == "cont":
+                        self.add(self.F[(o, n)], self.F[(d, "[]")] | self.F[(d, "k:" + n)])
+                    elif d.kind == "attrs":
+                        self.add(self.F[(o, n)], self.F[(d.py, n)] | self.F[(d, "k:" + n)])
+                    else:
+                        self.add(self.F[(o, n)], {d} | self.elements({d}))
             pi = getattr(pycls, "__post_init__", None)
             fn2 = self.func_of(pi) if pi else None
             if fn2 is not None:
@@ -1222,6 +1329,11 @@ class Analysis:
         if fn.qual.startswith("ufo2ft.util:zip_strict@") and node is not None:
             return self.rows(node, [self.elements(s_) for s_ in pos], "zip_strict")
         fnode = fn.node
+        if ctx is not None and node is not None and hasattr(node, "lineno"):
+            rk = (ctx.key, node.lineno, getattr(node, "col_offset", 0))
+            if rk not in self.repo_calls:
+                self.repo_calls.add(rk)
+                self.changed = True
         a = fnode.args
         params = [x.arg for x in a.posonlyargs + a.args]
         kwonly = [x.arg for x in a.kwonlyargs]
@@ -1483,7 +1595,7 @@ class Analysis:
             self.V.clear(); self.F.clear(); self.R.clear(); self.Y.clear()
             self.objs = {k: v for k, v in self.objs.items() if k[0] in ("SRC", "GS", "NONE")}
             self.ctxs.clear(); self.alarms.clear(); self.sites.clear(); self.globals_mut.clear()
-            self.unknown_calls.clear(); self.cut_hits.clear()
+            self.unknown_calls.clear(); self.cut_hits.clear(); self.repo_calls.clear(); self.strong_reads.clear()
             self.changed = True
             self.solve_once(max_rounds)
             # decide tests in the final state (no state change is kept from this pass)
@@ -1500,13 +1612,27 @@ class Analysis:
             self.deciding = False
             self.alarms, self.sites, self.globals_mut = snap
             nd = dict(self.new_decided)
-            for k, v in self.decided.items():
-                nd.setdefault(k, v) if k in self.new_decided else None
-            if nd == self.decided:
+            validated = all(nd.get(k) == v for k, v in self.decided.items())
+            if validated and (nd == self.decided or restart >= 2):
+                # the fixpoint computed under `decided` re-derives every decision it was pruned with: by
+                # induction over the concrete execution no pruned branch is ever taken (optimistic analysis)
                 self.restarts = restart + 1
+                self.validated = True
                 return self.rounds
-            self.decided = nd
-        self.restarts = max_restarts
+            if validated:
+                self.decided = nd  # more tests became decidable: prune further, validate again
+            else:
+                self.decided = {k: v for k, v in self.decided.items() if nd.get(k) == v}
+        # no self-validating set found within the budget: fall back to no pruning at all (sound)
+        self.decided = {}
+        self.V.clear(); self.F.clear(); self.R.clear(); self.Y.clear()
+        self.objs = {k: v for k, v in self.objs.items() if k[0] in ("SRC", "GS", "NONE")}
+        self.ctxs.clear(); self.alarms.clear(); self.sites.clear(); self.globals_mut.clear()
+        self.unknown_calls.clear(); self.cut_hits.clear(); self.repo_calls.clear(); self.strong_reads.clear()
+        self.changed = True
+        self.solve_once(max_rounds)
+        self.restarts = max_restarts + 1
+        self.validated = False
         return self.rounds
 
     def solve_once(self, max_rounds=60):
